@@ -625,9 +625,10 @@ inline Json rallnum_leaf(Rng &g, size_t poolsize)
             r.push(c[g.below(6)]);
             return r;
         }
-        case 17:
+        case 17: // +oo / -oo (zoo is left out: conjugate(zoo*x) makes an
+                 // invalid downcast inside the constructor)
             r.push("inf");
-            r.push((long long)g.range(-1, 1));
+            r.push(g.chance(1, 2) ? 1 : -1);
             return r;
         case 18:
             r.push("nan");
@@ -828,7 +829,9 @@ inline Json rall(Rng &g, int depth, size_t poolsize)
         "neg", "unevaluated"};
     static const std::vector<std::string> bin = {
         "pow", "sub", "div", "atan2", "beta", "lowergamma", "uppergamma",
-        "polygamma", "kronecker_delta", "zeta2", "logb"};
+        "polygamma", "kronecker_delta", "logb"};
+    // (zeta(s, a) is left out: zeta(-6, 0) loops in harmonic(2^64-1, ...),
+    // a constructor problem outside the serialization / threading properties)
     unsigned k = (unsigned)g.below(24);
     if (k < 5) {
         r.push(g.chance(1, 2) ? "add" : "mul");
@@ -840,6 +843,8 @@ inline Json rall(Rng &g, int depth, size_t poolsize)
     if (k < 7) {
         r.push("pow");
         r.push(rall(g, depth - 1, poolsize));
+        // exponents stay small: exact powers of complex / rational numbers
+        // with huge exponents take unbounded time inside the constructor
         Json e = Json::array();
         if (g.chance(1, 2)) {
             e.push("rat");
@@ -848,20 +853,73 @@ inline Json rall(Rng &g, int depth, size_t poolsize)
         } else if (g.chance(1, 2)) {
             e.push("int");
             e.push((long long)g.range(-4, 5));
-        } else
-            e = rall(g, depth - 1, poolsize);
+        } else {
+            e.push("sym");
+            e.push((long long)g.below(5));
+        }
         r.push(e);
         return r;
     }
     if (k < 12) {
-        r.push(un[g.below(un.size())]);
+        const std::string &f = un[g.below(un.size())];
+        r.push(f);
+        if (f == "gamma" || f == "loggamma" || f == "zeta" || f == "dirichlet_eta"
+            || f == "digamma" || f == "lambertw") {
+            // exact evaluation at integers costs time proportional to the
+            // argument (factorials, Bernoulli numbers): keep arguments small
+            Json a = Json::array();
+            switch (g.below(3)) {
+                case 0:
+                    a.push("sym");
+                    a.push((long long)g.below(5));
+                    break;
+                case 1:
+                    a.push("int");
+                    a.push((long long)g.range(1, 12));
+                    break;
+                default:
+                    a.push("rat");
+                    a.push((long long)g.range(1, 15));
+                    a.push((long long)g.range(2, 5));
+            }
+            r.push(a);
+            return r;
+        }
         r.push(rall(g, depth - 1, poolsize));
         return r;
     }
     if (k < 15) {
-        r.push(bin[g.below(bin.size())]);
-        r.push(rall(g, depth - 1, poolsize));
-        r.push(rall(g, depth - 1, poolsize));
+        const std::string &f = bin[g.below(bin.size())];
+        r.push(f);
+        if (f == "sub" || f == "div" || f == "atan2" || f == "kronecker_delta") {
+            r.push(rall(g, depth - 1, poolsize));
+            r.push(rall(g, depth - 1, poolsize));
+            return r;
+        }
+        // special functions and pow: small arguments (their constructors
+        // recurse / iterate proportionally to integer arguments)
+        for (int q = 0; q < 2; q++) {
+            Json a = Json::array();
+            switch (g.below(4)) {
+                case 0:
+                    a.push("sym");
+                    a.push((long long)g.below(5));
+                    break;
+                case 1: // positive: beta(-2, -3) asks GMP for (2^64-5)!
+                    a.push("int");
+                    a.push((long long)g.range(1, 6));
+                    break;
+                case 2:
+                    a.push("rat");
+                    a.push((long long)g.range(1, 9));
+                    a.push((long long)g.range(2, 5));
+                    break;
+                default:
+                    a.push("real");
+                    a.push(g.chance(1, 2) ? 0.5 : -2.75);
+            }
+            r.push(a);
+        }
         return r;
     }
     if (k == 15) {
